@@ -79,6 +79,8 @@ def build_of(fnode: ast.AST, e: ast.AST, depth: int = 0) -> Optional[Build]:
         return None
     if isinstance(init, (ast.ListComp, ast.GeneratorExp, ast.SetComp)) and not apps and not fills and not augs:
         return build_of(fnode, init, depth + 1)
+    if isinstance(init, ast.Name) and init.id != name and not apps and not fills and not augs:
+        return build_of(fnode, init, depth + 1)   # another name for a list built elsewhere in the function
     empty_set = isinstance(init, ast.Call) and astx.u(init.func) == "set" and not init.args
     if (isinstance(init, ast.List) and not init.elts) or empty_set:
         sites = [(astx.stmt_of(c, pm), c) for c in apps] + [(s, s) for s in augs]
